@@ -13,3 +13,53 @@ func (w *stickyWindow) finish()                                                 
 func (c *Cluster) extraTasks(faultEndNs int64) {}
 
 func (c *Cluster) execExtraStep(st Step) {}
+
+// callOn runs fn as a task of inc's process and parks the caller until it is
+// done (ok=false if the process died first).
+func (c *Cluster) callOn(inc *Incarnation, name string, fn func()) (ok bool) {
+	done := false
+	t := c.Sim.GoProc(inc.Proc, inc.Name()+"/"+name, func() {
+		fn()
+		done = true
+	})
+	if t == nil {
+		return false
+	}
+	simrtWaitUntil("call "+name, func() bool { return done || inc.Node.Inc != inc })
+	return done
+}
+
+// setupNonVoters starts the designated non-voting members empty (Start without
+// Bootstrap, as the repository's tests do) and asks whoever leads to add them.
+func (c *Cluster) setupNonVoters(untilNs int64) {
+	cfg := c.Cfg
+	var todo []*Node
+	for _, n := range c.Nodes {
+		if n.NonVoter {
+			c.startNode(n, nil)
+			todo = append(todo, n)
+		}
+	}
+	for len(todo) > 0 && c.Sim.Now() < untilNs && !c.healing {
+		c.sleepMs(int64(cfg.HeartbeatMs))
+		l := c.believedLeader()
+		if l == nil {
+			continue
+		}
+		inc := l.Inc
+		n := todo[0]
+		conf, ok := c.configuration(inc)
+		if ok {
+			if _, member := conf.Members[n.ID]; member {
+				c.Rec.probe("nonvoter-added")
+				todo = todo[1:]
+				continue
+			}
+		}
+		c.Stats.MembershipCalls++
+		c.callOn(inc, "addnonvoter", func() {
+			f := inc.Raft.AddServer(n.ID, n.Addr, false, msDur(int64(cfg.HeartbeatMs)))
+			f.Await()
+		})
+	}
+}
